@@ -118,7 +118,9 @@ class Gen:
                 ks = []
                 size = 1
             self.steps.append("mk %d %s" % (i, " ".join(map(str, ks))))
+            kids = [self.slot[k] for k in ks]
             self.slot[i] = self.fresh(size, "node" if ks else "sym")
+            self.slot[i]["kids"] = kids
         elif c < 0.26:
             i, j = self.pick_dest(), r.randrange(self.ns)
             self.steps.append("cp %d %d" % (i, j))
@@ -156,6 +158,13 @@ class Gen:
             self.steps.append(k)
         elif c < 0.66:
             self.from_dict()
+        elif c < 0.74 and self.live(lambda s: s.get("kids")):
+            # walk down into a member through the getter's const reference; mostly v[j] = member of *v[j]
+            j = r.choice(self.live(lambda s: s.get("kids")))
+            i = j if r.random() < 0.65 else self.pick_dest()
+            k = r.randrange(len(self.slot[j]["kids"]))
+            self.steps.append("km %d %d %d" % (i, j, k))
+            self.slot[i] = self.slot[j]["kids"][k]
         else:
             self.api()
 
@@ -263,6 +272,9 @@ def gen_program(rng, tier):
 
 
 CORPUS = [
+    # walking down into one's own member: the assigned handle is the only owner of the node that holds the source handle
+    "P 3 | mk 0 | mk 1 0 | mk 2 1 | dr 0 | dr 1 | km 2 2 0 | km 2 2 0 | dr 2",
+    "P 4 | mk 0 | mk 1 | mk 2 0 1 1 | cp 3 2 | dr 0 | km 2 2 1 | dr 3 | km 1 1 0 | dr 1 | dr 2",
     # chain and diamond: cascade of destructors through shared children
     "P 4 | mk 0 | mk 1 0 0 | mk 2 1 1 | mk 3 2 2 0 | dr 0 | dr 1 | dr 2 | dr 3",
     "P 3 | mk 0 | cp 1 0 | cp 2 0 | mv 0 1 | mc 1 2 | rs 0 | ft 2 1 | tp 2 | dr 1 | dr 2 | dr 0",
@@ -320,12 +332,12 @@ def model_line(prog, impl):
     for k, st in enumerate(psteps[1:]):
         t = st.split()
         o = obs[k] if k < len(obs) else ""
-        if t[0] in ("ap", "fdm", "fdk"):
+        if t[0] in ("ap", "fdm", "fdk", "km"):
             m = re.search(r" N (\S+) (\S+)", o)
             if o.rstrip().endswith("EXN") or o.rstrip().endswith("SKIP") or not m:
                 out.append("nop")
                 continue
-            dest = t[2] if t[0] == "ap" else t[1]
+            dest = t[2] if t[0] == "ap" else t[1]      # km i j k: an "API call" that returns an existing member
             s = "api %s %s %s" % (dest, m.group(1), m.group(2))
             if t[0] == "fdm":
                 s += " + dr %s" % t[2]
